@@ -920,7 +920,7 @@ pub fn run(args: &Args, report: &mut Report) {
         _ => "scalar-detected",
     };
     report.set("native_arch", json!(native_name));
-    let reps = report.size(6, 60);
+    let reps = report.size(6, 300);
     let seed = args.seed;
     let mut case: u64 = 0;
 
